@@ -363,6 +363,22 @@ pub fn gen_spec(rng: &mut Rng) -> (KyteaSpec, Vec<Vec<char>>) {
     if with_04 {
         char_map.push('\u{4}');
     }
+    // rare: a character map so large that the characters in use get ids above 32767
+    let big_map = rng.chance(1, 30);
+    if big_map {
+        let mut u = 0x4E00u32;
+        while char_map.len() < 36000 {
+            if let Some(c) = char::from_u32(u) {
+                if !alpha.contains(&c) {
+                    char_map.push(c);
+                }
+            }
+            u += 1;
+            if u == 0xA000 {
+                u = 0xAC00;
+            }
+        }
+    }
     for &c in &alpha {
         if !char_map.contains(&c) {
             char_map.push(c);
@@ -410,6 +426,15 @@ pub fn gen_spec(rng: &mut Rng) -> (KyteaSpec, Vec<Vec<char>>) {
         }
         let mask = if n_dicts == 0 { 0 } else { (rng.below(256) as u8) & (((1u16 << n_dicts) - 1) as u8) };
         words.push((w, mask));
+    }
+    // rare: a very long dictionary word (length bucket arithmetic beyond 255)
+    if rng.chance(1, 15) {
+        let len = *rng.pick(&[255usize, 256, 257, 258, 259, 260, 513]);
+        let w: Vec<char> = (0..len).map(|_| *rng.pick(&alpha)).collect();
+        if !words.iter().any(|x| x.0 == w) {
+            let mask = if n_dicts == 0 { 0 } else { (rng.below(256) as u8) & (((1u16 << n_dicts) - 1) as u8) };
+            words.push((w, mask));
+        }
     }
     let dict_vec: Vec<i16> = (0..3 * usize::from(dict_n) * usize::from(n_dicts)).map(|_| rng.range(-3000, 3000) as i16).collect();
     let spec = KyteaSpec {
